@@ -328,7 +328,7 @@ impl<'a, 'b> G<'a, 'b> {
             }
         }
         if depth > 0 {
-            match self.c.weighted(&[10, 3, 3, 3, 2, 2, 2, 2, 2]) {
+            match self.c.weighted(&[10, 3, 3, 3, 2, 2, 2, 2, 2, 2, 2, 2]) {
                 0 => {}
                 1 => return self.block(t, depth - 1),
                 2 => return self.case_bool(t, depth - 1),
@@ -337,7 +337,10 @@ impl<'a, 'b> G<'a, 'b> {
                 5 => return self.lambda_applied(t, depth - 1),
                 6 => return self.pipe_identity(t, depth - 1),
                 7 => return self.case_result(t, depth - 1),
-                _ => return self.case_list(t, depth - 1),
+                8 => return self.case_list(t, depth - 1),
+                9 => return self.case_shape(t, depth - 1),
+                10 => return self.higher_order(t, depth - 1),
+                _ => return self.use_expr(t, depth - 1),
             }
         }
         let d = depth.saturating_sub(1);
@@ -532,6 +535,14 @@ impl<'a, 'b> G<'a, 'b> {
                 self.tag("constructor call");
                 match n.as_str() {
                     "Color" => self.out.push_str(*self.c.pick(&["Red", "Green"])),
+                    "Rec" if d > 0 && self.c.chance(60) => {
+                        self.tag("record update");
+                        self.out.push_str("Rec(..");
+                        self.expr_base(&T::Adt("Rec".into(), vec![]), d);
+                        self.out.push_str(", age: ");
+                        self.expr(&T::Int, 0);
+                        self.out.push(')');
+                    }
                     "Rec" => {
                         if self.c.chance(128) {
                             self.tag("labelled arguments in another order");
@@ -651,7 +662,7 @@ impl<'a, 'b> G<'a, 'b> {
         let ty = self.gen_type(2);
         let saved = std::mem::take(&mut self.tags);
         let saved_opaque = std::mem::replace(&mut self.used_opaque, false);
-        match self.c.weighted(&[6, 2, 2, 1, 1]) {
+        match self.c.weighted(&[6, 2, 2, 1, 1, 1, 1]) {
             0 => {
                 let name = if self.c.chance(60) && !self.env.is_empty() { self.env[self.c.below(self.env.len())].0.clone() } else { self.fresh("v") };
                 self.out.push_str("let ");
@@ -763,6 +774,43 @@ impl<'a, 'b> G<'a, 'b> {
                 self.out.push_str(") = ");
                 self.expr(&T::Adt("Pair".into(), vec![a.clone(), b.clone()]), depth);
                 self.out.push('\n');
+                self.record(&n1, o1, a.clone(), "pattern variable");
+                self.record(&n2, o2, b.clone(), "pattern variable");
+                self.env.push((n1, a));
+                self.env.push((n2, b));
+            }
+            5 => {
+                // let assert on a Result
+                let (a, b) = (self.gen_type(1), self.gen_type(0));
+                let n = self.fresh("v");
+                self.tag("let assert");
+                let ok = self.c.chance(160);
+                self.out.push_str(if ok { "let assert Ok(" } else { "let assert Error(" });
+                let o = self.out.len();
+                self.out.push_str(&n);
+                self.out.push_str(") = ");
+                self.expr_operand(&T::Result(Box::new(a.clone()), Box::new(b.clone())), depth);
+                self.out.push('\n');
+                let ty = if ok { a } else { b };
+                self.record(&n, o, ty.clone(), "pattern variable");
+                self.env.push((n, ty));
+            }
+            6 => {
+                // nested destructuring: constructor inside a tuple
+                let (a, b) = (self.gen_type(1), self.gen_type(1));
+                let (n1, n2) = (self.fresh("v"), self.fresh("v"));
+                self.tag("nested patterns");
+                self.out.push_str("let #(Box(");
+                let o1 = self.out.len();
+                self.out.push_str(&n1);
+                self.out.push_str("), ");
+                let o2 = self.out.len();
+                self.out.push_str(&n2);
+                self.out.push_str(") = #(");
+                self.expr(&T::Adt("Box".into(), vec![a.clone()]), depth);
+                self.out.push_str(", ");
+                self.expr(&b, 0);
+                self.out.push_str(")\n");
                 self.record(&n1, o1, a.clone(), "pattern variable");
                 self.record(&n2, o2, b.clone(), "pattern variable");
                 self.env.push((n1, a));
@@ -916,6 +964,181 @@ impl<'a, 'b> G<'a, 'b> {
         }
     }
 
+    /// case on a type with several constructors: alternative patterns binding the same name,
+    /// `..` in a constructor pattern, a nested pattern in the subject tuple
+    fn case_shape(&mut self, t: &T, depth: usize) {
+        self.tag("case on a custom type");
+        let shape = T::Adt("Shape".into(), vec![]);
+        match self.c.below(3) {
+            0 => {
+                self.tag("alternative patterns");
+                let r = self.fresh("v");
+                self.out.push_str("case ");
+                self.expr_operand(&shape, depth);
+                self.out.push_str(" {\n Circle(");
+                let o1 = self.out.len();
+                self.out.push_str(&r);
+                self.out.push_str(") | Square(radius: ");
+                let o2 = self.out.len();
+                self.out.push_str(&r);
+                self.out.push_str(", ..) -> ");
+                let mark = self.env.len();
+                self.env.push((r.clone(), T::Float));
+                self.record(&r, o1, T::Float, "clause variable");
+                self.record(&r, o2, T::Float, "clause variable");
+                self.expr(t, depth);
+                self.env.truncate(mark);
+                self.out.push_str("\n}");
+            }
+            1 => {
+                self.tag("constructor pattern with `..`");
+                let (r, sd) = (self.fresh("v"), self.fresh("v"));
+                self.out.push_str("case ");
+                self.expr_operand(&shape, depth);
+                self.out.push_str(" {\n Square(side: ");
+                let o1 = self.out.len();
+                self.out.push_str(&sd);
+                self.out.push_str(", ..) -> ");
+                let mark = self.env.len();
+                self.env.push((sd.clone(), T::Int));
+                self.record(&sd, o1, T::Int, "clause variable");
+                self.expr(t, depth);
+                self.env.truncate(mark);
+                self.out.push_str("\n Circle(radius: ");
+                let o2 = self.out.len();
+                self.out.push_str(&r);
+                self.out.push_str(") -> ");
+                self.env.push((r.clone(), T::Float));
+                self.record(&r, o2, T::Float, "clause variable");
+                self.expr(t, depth);
+                self.env.truncate(mark);
+                self.out.push_str("\n}");
+            }
+            _ => {
+                self.tag("nested patterns");
+                let e = self.gen_type(1);
+                let (a, b, w) = (self.fresh("v"), self.fresh("v"), self.fresh("v"));
+                self.out.push_str("case #(");
+                self.expr(&T::Adt("Box".into(), vec![e.clone()]), depth);
+                self.out.push_str(", ");
+                self.expr_operand(&shape, 0);
+                self.out.push_str(") {\n #(Box(");
+                let o1 = self.out.len();
+                self.out.push_str(&a);
+                self.out.push_str("), Circle(");
+                let o2 = self.out.len();
+                self.out.push_str(&b);
+                self.out.push_str(")) -> ");
+                let mark = self.env.len();
+                self.env.push((a.clone(), e.clone()));
+                self.env.push((b.clone(), T::Float));
+                self.record(&a, o1, e.clone(), "clause variable");
+                self.record(&b, o2, T::Float, "clause variable");
+                self.expr(t, depth);
+                self.env.truncate(mark);
+                self.out.push_str("\n #(Box(value: ");
+                let o3 = self.out.len();
+                self.out.push_str(&a);
+                self.out.push_str("), _) as ");
+                let o4 = self.out.len();
+                self.out.push_str(&w);
+                self.out.push_str(" -> ");
+                self.env.push((a.clone(), e.clone()));
+                let whole = T::Tuple(vec![T::Adt("Box".into(), vec![e.clone()]), shape.clone()]);
+                self.env.push((w.clone(), whole.clone()));
+                self.record(&a, o3, e, "clause variable");
+                self.record(&w, o4, whole, "as-name");
+                self.expr(t, depth);
+                self.env.truncate(mark);
+                self.out.push_str("\n}");
+            }
+        }
+    }
+
+    /// a function literal passed to a generic higher-order function; the argument comes first, so
+    /// the parameter's type follows from it
+    fn higher_order(&mut self, t: &T, depth: usize) {
+        self.tag("function literal as argument");
+        let (a, proj) = self.callback_arg_type(t);
+        let p = self.fresh("p");
+        let form = self.c.below(3);
+        if form == 2 {
+            // labelled, the callback written first: Gleam still checks `value` first
+            self.tag("labelled arguments in another order");
+            self.out.push_str("apply_l(with: fn(");
+            let off = self.out.len();
+            self.out.push_str(&p);
+            self.out.push_str(") { ");
+            let mark = self.env.len();
+            self.env.push((p.clone(), a.clone()));
+            self.callback_body(&p, proj, t, depth);
+            self.env.truncate(mark);
+            self.out.push_str(" }, value: ");
+            self.expr(&a, 0);
+            self.out.push(')');
+            self.record(&p, off, a, "lambda parameter");
+            return;
+        }
+        self.out.push_str(if form == 1 { "apply_l(" } else { "apply(" });
+        self.expr(&a, 0);
+        self.out.push_str(if form == 1 { ", with: fn(" } else { ", fn(" });
+        let off = self.out.len();
+        self.out.push_str(&p);
+        self.out.push_str(") { ");
+        // the argument before the function literal fixes `a`: inside the body the parameter's type
+        // is known to Gleam (field access and tuple index on it are fine)
+        let mark = self.env.len();
+        self.env.push((p.clone(), a.clone()));
+        self.callback_body(&p, proj, t, depth);
+        self.env.truncate(mark);
+        self.out.push_str(" })");
+        self.record(&p, off, a, "lambda parameter");
+    }
+
+    /// `{ use p <- apply(arg)  body }`
+    fn use_expr(&mut self, t: &T, depth: usize) {
+        self.tag("use expression");
+        let (a, proj) = self.callback_arg_type(t);
+        let p = self.fresh("p");
+        self.out.push_str("{\nuse ");
+        let off = self.out.len();
+        self.out.push_str(&p);
+        self.out.push_str(" <- apply(");
+        self.expr(&a, 0);
+        self.out.push_str(")\n");
+        let mark = self.env.len();
+        self.env.push((p.clone(), a.clone()));
+        self.record(&p, off, a, "use binder");
+        self.callback_body(&p, proj, t, depth);
+        self.env.truncate(mark);
+        self.out.push_str("\n}");
+    }
+
+    /// the argument type of a callback: often a tuple holding the wanted type, so that the body can
+    /// be a projection of the parameter (which needs the parameter's type to be known by then)
+    fn callback_arg_type(&mut self, t: &T) -> (T, Option<usize>) {
+        if self.c.chance(110) {
+            let other = self.gen_type(0);
+            if self.c.chance(128) {
+                (T::Tuple(vec![t.clone(), other]), Some(0))
+            } else {
+                (T::Tuple(vec![other, t.clone()]), Some(1))
+            }
+        } else {
+            (self.gen_type(1), None)
+        }
+    }
+
+    fn callback_body(&mut self, p: &str, proj: Option<usize>, t: &T, depth: usize) {
+        match proj {
+            Some(idx) if self.c.chance(200) => {
+                self.tag("projection of a callback parameter");
+                self.out.push_str(&format!("{}.{}", p, idx));
+            }
+            _ => self.expr(t, depth),
+        }
+    }
+
     fn tuple_index(&mut self, t: &T, depth: usize) {
         self.tag("tuple index");
         let other = self.gen_type(0);
@@ -947,6 +1170,24 @@ impl<'a, 'b> G<'a, 'b> {
 
     fn pipe_identity(&mut self, t: &T, depth: usize) {
         self.tag("pipeline");
+        if self.c.chance(70) {
+            // `x |> apply(fn(p) { .. })`: the piped value is the first argument, so `p` is known
+            self.tag("pipe into a call with a function literal");
+            let (a, proj) = self.callback_arg_type(t);
+            let p = self.fresh("p");
+            self.expr_operand(&a, depth);
+            self.out.push_str(" |> apply(fn(");
+            let off = self.out.len();
+            self.out.push_str(&p);
+            self.out.push_str(") { ");
+            let mark = self.env.len();
+            self.env.push((p.clone(), a.clone()));
+            self.callback_body(&p, proj, t, depth);
+            self.env.truncate(mark);
+            self.out.push_str(" })");
+            self.record(&p, off, a, "lambda parameter");
+            return;
+        }
         self.expr_operand(t, depth);
         match self.c.below(3) {
             0 => self.out.push_str(" |> identity"),
@@ -1057,6 +1298,8 @@ pub fn gen_program(c: &mut Choices, f: &Features) -> Program {
         "fn first(p: #(a, b)) -> a {\n  p.0\n}\n\n",
         "fn pick(this a: a, other b: b) -> a {\n  let _ = b\n  a\n}\n\n",
         "fn keep(a: a, b: b) -> a {\n  let _ = b\n  a\n}\n\n",
+        "fn apply(x: a, f: fn(a) -> b) -> b {\n  f(x)\n}\n\n",
+        "fn apply_l(value x: a, with f: fn(a) -> b) -> b {\n  f(x)\n}\n\n",
         // a recursion group whose types are determined by the bodies
         "fn even(n) {\n  case n == 0 {\n    True -> True\n    False -> odd(n - 1)\n  }\n}\n\nfn odd(n) {\n  case n == 0 {\n    True -> False\n    False -> even(n - 1)\n  }\n}\n\n",
     ];
@@ -1190,7 +1433,7 @@ impl Property for C09 {
         "C09"
     }
     fn rule(&self) -> String {
-        "cases: proptest-generated two-module programs from a type-directed generator: every expression is built against a chosen monomorphic target type (Int, Float, String, Bool, Nil, List, tuples, Result, functions, the custom types Color/Rec/Shape and the generic Box(a)/Pair(a, b), an alias) choosing among literals, variables of that type (respecting shadowing), type-specific operators, comparisons, ==, <>, tuples and tuple index, lists and spreads, Ok/Error, record construction with labels in any order, field access incl. a field common to several constructors, blocks with lets, case on Bool / Result / (list, second subject), generic functions instantiated at the target type, labelled calls in shuffled order, calls across modules, lambdas applied in place, captures, pipelines (bare, call, call with further arguments); 1-4 user functions with annotated parameters and annotated or inferred return types are interleaved in stream-chosen order with generic helpers and a mutually recursive pair whose types follow from the bodies. Oracle: hover on every binder (let, pattern, clause, spread, as-name, lambda parameter, annotated parameter, function name) shows the type known by construction, compared up to a bijective renaming of type variables. evaluations = binders checked. Non-trivial = binder whose initialiser combines >= 2 features, or in a recursion group / across modules; distinct by (program, binder).".into()
+        "cases: proptest-generated two-module programs from a type-directed generator: every expression is built against a chosen monomorphic target type (Int, Float, String, Bool, Nil, List, tuples, Result, functions, the custom types Color/Rec/Shape and the generic Box(a)/Pair(a, b), an alias) choosing among literals, variables of that type (respecting shadowing), type-specific operators, comparisons, ==, <>, tuples and tuple index, lists and spreads, Ok/Error, record construction with labels in any order, field access incl. a field common to several constructors, blocks with lets, case on Bool / Result / (list, second subject), generic functions instantiated at the target type, labelled calls in shuffled order, calls across modules, lambdas applied in place, captures, pipelines (bare, call, call with further arguments, call with a function literal), function literals passed to generic higher-order functions (positional, labelled, labelled in another order) whose bodies project the parameter (`p.0`, `p.field`), `use` expressions, case on a custom type with alternative patterns binding the same name / `..` / nested constructor patterns under an as-pattern, record update, `let assert`, nested destructuring, let/lambda annotations written structurally or through aliases of this and of another module, `todo` initialisers; 1-4 user functions with annotated parameters and annotated or inferred return types are interleaved in stream-chosen order with generic helpers and a mutually recursive pair whose types follow from the bodies. Oracle: hover on every binder (let, pattern, clause, spread, as-name, lambda parameter, annotated parameter, function name) shows the type known by construction, compared up to a bijective renaming of type variables. evaluations = binders checked. Non-trivial = binder whose initialiser combines >= 2 features, or in a recursion group / across modules; distinct by (program, binder).".into()
     }
     fn assumptions(&self) -> Vec<String> {
         vec![
@@ -1206,7 +1449,7 @@ impl Property for C09 {
         Some(crate::FuzzSpec { label: "c09-programs", max_len: 600, runs: 40000 })
     }
     fn run(&self, ctx: &mut Ctx) {
-        let cases = ctx.tier.pick(3_000, 100_000);
+        let cases = ctx.tier.pick(30_000, 100_000);
         let f = features_from_env();
         ctx.run_streams("c09-programs", cases, 600, |ctx, bytes| {
             ctx.mark(&json!({"stream": hex(bytes)}));
